@@ -71,6 +71,29 @@ theorem cctpDepositForBurn_reqs {cfg : Cfg} {c c' : Ctx} {amount : Int} {domain 
   obtain ⟨_, _, _, _, _, _, c1, h1, _, _, _, c2, h2, c3, h3, _, _, _, rfl⟩ := h
   rw [Ctx.burn_reqs h3, Ctx.send_reqs h2, Ctx.send_reqs h1]
 
+/-- Whatever hook a transfer resolves to is one of the environment's hooks. -/
+theorem hookFor_mem {e : ExtState} {ch : Bytes} {h : Hook} (hh : hookFor e ch = .ok h) : h ∈ e.hooks := by
+  unfold hookFor at hh
+  unfold ExtState.hooks
+  split at hh
+  · simp only [Res.ok.injEq] at hh; subst hh; exact List.mem_cons_self
+  · split at hh
+    · rename_i h' hr
+      simp only [Res.ok.injEq] at hh; subst hh
+      unfold resolveHook at hr
+      simp only at hr
+      split at hr
+      · split at hr
+        · simp only [Option.some.injEq] at hr; subst hr; simp
+        · cases hr
+      · split at hr
+        · split at hr
+          · cases hr
+          · have := List.mem_of_getElem? hr
+            simp [this]
+        · cases hr
+    · cases hh
+
 theorem warpRemoteTransfer_reqs {cfg : Cfg} {c c' : Ctx} {token hook : Bytes} {domain : Nat} {amount gas feeAmt : Int} {feeDenom : String}
     (h : warpRemoteTransfer cfg c token domain amount gas feeDenom feeAmt hook = .ok c') : c'.reqs = c.reqs := by
   unfold warpRemoteTransfer at h
@@ -84,7 +107,8 @@ theorem warpRemoteTransfer_reqs {cfg : Cfg} {c c' : Ctx} {token hook : Bytes} {d
     | none => simp [hr] at h
     | some rgas =>
       simp only [hr, Res.bind_ok, Res.guard_bind_eq_ok, Res.guard_panic_bind_eq_ok] at h
-      obtain ⟨_, _, h⟩ := h
+      obtain ⟨_, h⟩ := h
+      obtain ⟨hk, _, h⟩ := Res.bind_eq_ok.mp h
       split at h
       · simp only [Res.ok.injEq] at h
         subst h
@@ -133,7 +157,8 @@ theorem warpRemoteTransfer_calls {cfg : Cfg} {c c' : Ctx} {token hook : Bytes} {
     | none => simp [hr] at h
     | some rgas =>
       simp only [hr, Res.bind_ok, Res.guard_bind_eq_ok, Res.guard_panic_bind_eq_ok] at h
-      obtain ⟨_, _, h⟩ := h
+      obtain ⟨_, h⟩ := h
+      obtain ⟨hk, _, h⟩ := Res.bind_eq_ok.mp h
       split at h
       · simp only [Res.ok.injEq] at h
         subst h
